@@ -69,7 +69,7 @@ def cases(rng, tier):
              "‮rtl.wgsl", "", "env!(\"OUT_DIR\")", "concat!(\"a\", \"/b.wgsl\")", "concat!()", "include_str!(\"x\")", "r#\"raw\"#"]
     for i, p in enumerate(paths):
         base = W.random_program(rng).render()
-        out.append({"wgsl": base, "family": "include_path", "opts": {"rustfmt": i % 3 == 0}, "include": p})
+        out.append({"wgsl": base, "family": "include_path", "opts": {"rustfmt": i % 3 == 0}, "include": p, "want_lit": True})
         out.append({"wgsl": base, "family": "include_twin_embedded", "opts": {"rustfmt": i % 3 == 0}, "include": None})
     return out
 
@@ -92,6 +92,12 @@ def run_cases(plain, cases_, workdir, tag):
 def b_holds(c, r):
     if r.get("result") != "ok":
         return True
+    if c.get("include") is not None and "source_include_arg" in r:
+        # read off the token stream of the returned text (no extractor involved): SOURCE = include_str!(<exactly the path>)
+        arg = r["source_include_arg"] or {}
+        if arg.get("literal") != c["include"]:
+            c["note"] = "SOURCE is include_str!(%s), the path given was %r" % (arg, c["include"])
+            return False
     if c["include"] is None:
         obs = r.get("obs") or {}
         if obs.get("obs", 1) is None:
